@@ -28,6 +28,7 @@ import (
 	"go/token"
 	"regexp"
 	"sort"
+	"strconv"
 	"strings"
 )
 
@@ -66,6 +67,8 @@ type efFunc struct {
 	sitePos     map[token.Pos]int
 	named       *ast.Object // last named result
 	sk          *efNode
+	retries     []int // bounds of the unrolled retry loops
+	retrySeen   map[token.Pos]bool
 	unsup       []string
 }
 
@@ -1151,7 +1154,30 @@ func (x *efGen) stmt(s ast.Stmt, k efK, cx efCtx) *efNode {
 			}
 		}
 		if !x.loopSafe(body) {
-			return x.bad(s.Pos(), "loop containing tracked calls, success steps or assignments to tracked variables")
+			// a bounded retry `for i := 0; i < N; i++ { … }` with a constant N is unrolled: attempt 1 … attempt N, then the
+			// statements after the loop (the bound is exhausted); `continue` / the end of the body start the next attempt,
+			// `break` leaves the loop. Every other loop with tracked content is outside the language.
+			if fs, ok := v.(*ast.ForStmt); ok {
+				if n, ok := x.constBound(fs); ok {
+					if x.f.retrySeen == nil {
+						x.f.retrySeen = map[token.Pos]bool{}
+					}
+					if !x.f.retrySeen[fs.Pos()] {
+						x.f.retrySeen[fs.Pos()] = true
+						x.f.retries = append(x.f.retries, n)
+					}
+					var iter func(i int) *efNode
+					iter = func(i int) *efNode {
+						if i == n {
+							return k()
+						}
+						next := efMemo(func() *efNode { return iter(i + 1) })
+						return nd("(.attempt %d %d %s)", i+1, n, x.block(body.List, next, efCtx{brk: k, cont: next}).str)
+					}
+					return iter(0)
+				}
+			}
+			return x.bad(s.Pos(), "loop containing tracked calls, success steps or assignments to tracked variables (not a constant-bound retry loop)")
 		}
 		// no tracked content: the body runs zero times or - as far as returns and responders go - once
 		once := x.block(body.List, k, efCtx{brk: k, cont: k})
@@ -1172,6 +1198,86 @@ func (x *efGen) stmt(s ast.Stmt, k efK, cx efCtx) *efNode {
 		return x.bad(s.Pos(), fmt.Sprintf("statement %T", s))
 	}
 	return x.bad(s.Pos(), fmt.Sprintf("statement %T", s))
+}
+
+// constBound: `for i := 0; i < N; i++` with N an integer literal or a constant of pkg/op (1 ≤ N ≤ 5) and i not assigned in the body
+func (x *efGen) constBound(fs *ast.ForStmt) (int, bool) {
+	as, ok := fs.Init.(*ast.AssignStmt)
+	if !ok || as.Tok != token.DEFINE || len(as.Lhs) != 1 || len(as.Rhs) != 1 {
+		return 0, false
+	}
+	iv, ok := as.Lhs[0].(*ast.Ident)
+	if lit, ok2 := as.Rhs[0].(*ast.BasicLit); !ok || !ok2 || lit.Value != "0" {
+		return 0, false
+	}
+	cond, ok := fs.Cond.(*ast.BinaryExpr)
+	if !ok || cond.Op != token.LSS {
+		return 0, false
+	}
+	if l, ok := cond.X.(*ast.Ident); !ok || l.Name != iv.Name {
+		return 0, false
+	}
+	post, ok := fs.Post.(*ast.IncDecStmt)
+	if !ok || post.Tok != token.INC || exprString(post.X) != iv.Name {
+		return 0, false
+	}
+	n, ok := x.p.constInt(cond.Y)
+	if !ok || n < 1 || n > 5 {
+		return 0, false
+	}
+	assigned := false
+	ast.Inspect(fs.Body, func(m ast.Node) bool {
+		switch v := m.(type) {
+		case *ast.AssignStmt:
+			for _, l := range v.Lhs {
+				if id, ok := l.(*ast.Ident); ok && id.Obj == iv.Obj {
+					assigned = true
+				}
+			}
+		case *ast.IncDecStmt:
+			if id, ok := v.X.(*ast.Ident); ok && id.Obj == iv.Obj {
+				assigned = true
+			}
+		}
+		return !assigned
+	})
+	return n, !assigned
+}
+
+// constInt: an integer literal, or an identifier declared as an integer constant in pkg/op
+func (p *efProg) constInt(e ast.Expr) (int, bool) {
+	switch v := e.(type) {
+	case *ast.BasicLit:
+		if v.Kind == token.INT {
+			n, err := strconv.Atoi(v.Value)
+			return n, err == nil
+		}
+	case *ast.Ident:
+		for _, rel := range c09GoFiles("pkg/op") {
+			af := p.g.file(rel)
+			if af == nil {
+				continue
+			}
+			for _, d := range af.Decls {
+				gd, ok := d.(*ast.GenDecl)
+				if !ok || gd.Tok != token.CONST {
+					continue
+				}
+				for _, sp := range gd.Specs {
+					vs, ok := sp.(*ast.ValueSpec)
+					if !ok {
+						continue
+					}
+					for i, nm := range vs.Names {
+						if nm.Name == v.Name && i < len(vs.Values) {
+							return p.constInt(vs.Values[i])
+						}
+					}
+				}
+			}
+		}
+	}
+	return 0, false
 }
 
 func isNilNode(n ast.Node) bool {
@@ -1286,6 +1392,16 @@ func c10Facts(g *genCtx) string {
 	for _, k := range keys {
 		oos = append(oos, "("+leanStr(k)+", "+leanStr(c10OutOfScope[k])+")")
 	}
+	var rl []string
+	for _, f := range p.funcs {
+		if f.tracked {
+			for _, n := range f.retries {
+				rl = append(rl, fmt.Sprintf("(%s, %d)", leanStr(f.name), n))
+			}
+		}
+	}
+	b.WriteString("/-- bounded retry loops around tracked calls (function, number of attempts): unrolled in the trees -/\ndef retryLoops : List (String × Nat) := [" + strings.Join(rl, ", ") + "]\n\n")
+	g.facts["C10.retryLoops"] = rl
 	b.WriteString("/-- handlers the extractor leaves out, with the reason -/\ndef outOfScope : List (String × String) := [" + strings.Join(oos, ", ") + "]\n")
 	g.facts["C10.flowFunctions"] = facts
 	g.facts["C10.flowSites"] = nSites
